@@ -191,11 +191,40 @@ def reroot(tree, rng):
     return (build(u, v), build(v, u))
 
 
+def perm_indices(rng, L):
+    """an `indices` string selecting every column exactly once, in another order: pieces a:b and single
+    positions, written with positive or negative numbers (the last column as -1 in particular)"""
+    cuts = sorted(set([0, L] + [rng.randrange(1, L) for _ in range(rng.randint(1, 3))] + ([L - 1] if rng.random() < 0.6 else [])))
+    pieces = list(zip(cuts[:-1], cuts[1:]))
+    rng.shuffle(pieces)
+    items = []
+    for a, b in pieces:
+        if b - a == 1:
+            items.append(str(a - L) if rng.random() < 0.6 else str(a))
+        else:
+            sa = "" if a == 0 and rng.random() < 0.5 else (str(a - L) if a > 0 and rng.random() < 0.3 else str(a))
+            sb = "" if b == L else (str(b - L) if rng.random() < 0.5 else str(b))
+            items.append(f"{sa}:{sb}")
+    return ",".join(items)
+
+
 def variants(can, rng):
     n = can["n"]
     ident = list(range(n))
     A = realise(can, can["tree"], ident, ident, can["seqs"], "partials_noamb")
     out = []
+    L = len(can["seqs"][0])
+    if L >= 2:
+        # the columns selected in another order through the site pattern's `indices` (a permutation of all columns)
+        B = realise(can, can["tree"], ident, ident, can["seqs"], "partials_noamb")
+        B["indices"] = perm_indices(rng, L)
+        out.append(("indices_permutation", B))
+        # a selection (repeats allowed) through `indices` vs the selected columns written out
+        sel = c01.gen_indices(rng, L)
+        Bx = realise(can, can["tree"], ident, ident, can["seqs"], "partials_noamb")
+        Bx["indices"] = sel
+        Ax = realise(can, can["tree"], ident, ident, [c01.select_columns(sq, sel) for sq in can["seqs"]], "partials_noamb")
+        out.append(("indices_vs_written_out", Bx, Ax))
     p = ident[:]; rng.shuffle(p)
     out.append(("perm_taxa", realise(can, can["tree"], p, ident, can["seqs"], "partials_noamb")))
     q = ident[:]; rng.shuffle(q)
